@@ -249,10 +249,17 @@ class Profiles:
         **very** slow instead.
         """
         # add macros
+        newmacros = {}
         for profile, properties, macros in profiles:
             if macros:
-                self._usedMacros.update(macros)
+                newmacros.update(macros)
                 self._rawProfiles[profile] = {'macros': macros.copy()}
+
+        if self._profileNames and set(newmacros).intersection(self._usedMacros):
+            # known macros are redefined: the registered profiles change too
+            self._resetProperties(newMacros=newmacros)
+        else:
+            self._usedMacros.update(newmacros)
 
         # only add new properties
         for profile, properties, macros in profiles:
